@@ -37,7 +37,7 @@ type CacheDeco struct {
 	// SlowDelay: how long a call hit by fault kind "slow" is held before it proceeds normally
 	SlowDelay time.Duration
 	// gate: if non-nil every Modify parks here until released
-	Gate func(ctx context.Context, call CacheCall)
+	Gate                       func(ctx context.Context, call CacheCall)
 	PruneCreated, PruneApplied int
 	// OnReadChEnd, if set, is called with the ordinal of the ReadCh call after its last element was handed over
 	// and before the channel is closed (harness-owned placement of a cancellation between read and hand-over)
